@@ -100,20 +100,42 @@ func FSRunHistory(c FSCfg, hist []string, c15 bool, scratch string) (viol string
 //go:norace
 func setStr(p *string, v string) { *p = v }
 
-// FSJobs: one job per (configuration, first operation).
+// FSJobs: one job per (configuration, first operation) of the full alphabet,
+// plus one per configuration for the long histories over the reduced alphabet.
 type FSJob struct {
 	Cfg   int
 	First int
+	Long  bool
 }
 
 func FSJobList(tier string) []FSJob {
 	var out []FSJob
 	for ci, c := range FSConfigs(tier) {
 		for oi := range FSOps(c) {
-			out = append(out, FSJob{ci, oi})
+			out = append(out, FSJob{Cfg: ci, First: oi})
 		}
 	}
+	for ci := range FSConfigs(tier) {
+		out = append(out, FSJob{Cfg: ci, Long: true})
+	}
 	return out
+}
+
+// FSLongOps is the reduced alphabet for longer histories: files pile up over
+// several Reopens / rotations before retention runs.
+func FSLongOps(c FSCfg) []string {
+	big := 200
+	if c.MaxBytes > 0 {
+		big = c.MaxBytes + 1
+	}
+	return []string{"w1", fmt.Sprintf("w%d", big), "reopen", "+31ms"}
+}
+
+func FSLongDepth(tier string) int {
+	if tier == "thorough" {
+		return 7
+	}
+	return 6
 }
 
 func FSDepth(tier string) int {
@@ -143,8 +165,17 @@ func FSRunJob(tier string, j FSJob, c15 bool, deadline time.Time, replay []strin
 		return res
 	}
 	depth := FSDepth(tier)
+	start := 1
+	if j.Long {
+		ops = FSLongOps(c)
+		depth = FSLongDepth(tier)
+		start = 0
+		name += " (long histories, reduced alphabet)"
+	}
 	hist := make([]string, depth)
-	hist[0] = ops[j.First]
+	if !j.Long {
+		hist[0] = ops[j.First]
+	}
 	var rec func(i int) bool
 	rec = func(i int) bool {
 		if i == depth {
@@ -174,7 +205,7 @@ func FSRunJob(tier string, j FSJob, c15 bool, deadline time.Time, replay []strin
 		}
 		return true
 	}
-	rec(1)
+	rec(start)
 	return res
 }
 
